@@ -81,3 +81,19 @@ _add(
     deciding={"any": {"classified_integers": 3001, "extract_cases": 300, "union_cases": 50, "product_shapes": 20, "extract_unknown_package": 1, "extract_out_of_range": 1}},
     headline=["classified_integers", "extract_cases", "union_cases", "product_shapes", "product_results_checked"],
 )
+
+_add(
+    "C01",
+    shards=(4, 14),
+    timeout=(900, 5400),
+    title="operator precedence",
+    rule=(
+        "token-level generated well-formed condition expressions (atoms: keys, packages with/without repeatability, time conditions; six operator "
+        "spellings in both cases, juxtaposition, brackets, whitespace) - each token sequence in four renderings (plain, respelled + whitespace, "
+        "redundant brackets); all 4! orderings of the four operator levels in chains with spelling combinations; long alternating chains; deep "
+        "nesting. Oracle: a hand-written precedence parser yields the n-ary grouping, the lark tree must be some binarisation of it. distinct "
+        "non-trivial = distinct strings with >= 2 operator kinds or grouping-relevant brackets"
+    ),
+    deciding={"any": {"token_sequences": 200, "level_ordering_chains": 100, "long_chains": 3, "deep_nestings": 2, "with_then": 50, "with_and": 50, "with_or": 50, "with_xor": 50}},
+    headline=["token_sequences", "level_ordering_chains", "long_chains", "deep_nestings", "nontrivial_strings"],
+)
